@@ -42,50 +42,45 @@ static inline _Bool SparseM_wf(SparseM *m)
          __CPROVER_is_fresh(m->values, m->nnz * sizeof(double)) &&
          m->outer[0] == 0 && m->outer[m->outerSize] == m->nnz &&
          (m->gpos == -1 || (0 <= m->gpos && m->gpos < m->nnz && 0 <= m->gouter && m->gouter < m->outerSize &&
-                            m->outer[m->gouter] <= m->gpos && m->gpos < m->outer[m->gouter + 1]));
+                            m->outer[m->gouter] <= m->gpos && m->gpos < m->outer[m->gouter + 1] &&
+                            0 <= m->inner[m->gpos] && m->inner[m->gpos] < m->innerSize));
 }
 static inline long SparseM_outerSize(SparseM *m) { return m->outerSize; }
 static inline long SparseM_innerSize(SparseM *m) { return m->innerSize; }
 static inline long SparseM_nonZeros(SparseM *m) { return m->nnz; }
 
-static inline SpIt SpIt_ctor2(SparseM *m, long outer)
-{
-  SpIt it;
-  __CPROVER_assert(0 <= outer && outer < m->outerSize, "InnerIterator: outer index inside the matrix");
-  it.m = m; it.m_outer = outer;
-  it.m_id = m->outer[outer]; it.m_end = m->outer[outer + 1];
-  /* ASSUMED: compressed form, 0 <= outer[k] <= outer[k+1] <= nnz */
-  __CPROVER_assume(0 <= it.m_id && it.m_id <= it.m_end && it.m_end <= m->nnz);
-  /* ASSUMED: outer[] is monotone, point-wise against the ghost outer vector */
-  if (m->gpos >= 0) {
-    if (outer < m->gouter) __CPROVER_assume(it.m_end <= m->outer[m->gouter]);
-    if (outer > m->gouter) __CPROVER_assume(it.m_id >= m->outer[m->gouter + 1]);
-  }
-  return it;
-}
-static inline _Bool SpIt_conv_bool(SpIt *it) { return it->m_id < it->m_end; }
-static inline SpIt *SpIt_inc(SpIt *it) { it->m_id++; return it; }
-static inline int SpIt_index(SpIt *it)
-{
-  SparseM *m = it->m;
-  __CPROVER_assert(0 <= it->m_id && it->m_id < m->nnz, "InnerIterator::index(): read inside the index array");
-  int r = m->inner[it->m_id];
-  __CPROVER_assume(0 <= r && r < m->innerSize);
-  if (m->gpos >= 0 && it->m_outer == m->gouter && it->m_id < it->m_end) {
-    int g = m->inner[m->gpos];
-    __CPROVER_assume(0 <= g && g < m->innerSize);
-    if (it->m_id < m->gpos) __CPROVER_assume(r < g);
-    if (it->m_id > m->gpos) __CPROVER_assume(r > g);
-  }
-  return r;
-}
-static inline double SpIt_value(SpIt *it)
-{
-  SparseM *m = it->m;
-  __CPROVER_assert(0 <= it->m_id && it->m_id < m->nnz, "InnerIterator::value(): read inside the value array");
-  m->last_value_pos = it->m_id; m->last_value_outer = it->m_outer;
-  return m->values[it->m_id];
-}
+/* iterator operations are macros on purpose: `(&Cinner)->m_id++` is an assignment to a local
+ * variable for CBMC, whereas a function taking `SpIt *` turns every step into a pointer write
+ * that the contract instrumentation must check against the write set. */
+#define SpIt_ctor2(mat, outer_) ({ \
+  SparseM *_m = (mat); long _o = (outer_); SpIt _it; \
+  __CPROVER_assert(0 <= _o && _o < _m->outerSize, "InnerIterator: outer index inside the matrix"); \
+  _it.m = _m; _it.m_outer = _o; _it.m_id = _m->outer[_o]; _it.m_end = _m->outer[_o + 1]; \
+  /* ASSUMED: compressed form, 0 <= outer[k] <= outer[k+1] <= nnz */ \
+  __CPROVER_assume(0 <= _it.m_id && _it.m_id <= _it.m_end && _it.m_end <= _m->nnz); \
+  /* ASSUMED: outer[] is monotone, point-wise against the ghost outer vector */ \
+  if (_m->gpos >= 0) { \
+    if (_o < _m->gouter) __CPROVER_assume(_it.m_end <= _m->outer[_m->gouter]); \
+    if (_o > _m->gouter) __CPROVER_assume(_it.m_id >= _m->outer[_m->gouter + 1]); \
+  } \
+  _it; })
+#define SpIt_conv_bool(it) ((it)->m_id < (it)->m_end)
+#define SpIt_inc(it) ((it)->m_id++, (it))
+#define SpIt_index(it) ({ \
+  __CPROVER_assert(0 <= (it)->m_id && (it)->m_id < (it)->m->nnz, "InnerIterator::index(): read inside the index array"); \
+  int _r = (it)->m->inner[(it)->m_id]; \
+  __CPROVER_assume(0 <= _r && _r < (it)->m->innerSize); \
+  if ((it)->m->gpos >= 0 && (it)->m_outer == (it)->m->gouter && (it)->m_id < (it)->m_end) { \
+    int _g = (it)->m->inner[(it)->m->gpos]; \
+    __CPROVER_assume(0 <= _g && _g < (it)->m->innerSize); \
+    if ((it)->m_id < (it)->m->gpos) __CPROVER_assume(_r < _g); \
+    if ((it)->m_id > (it)->m->gpos) __CPROVER_assume(_r > _g); \
+  } \
+  _r; })
+#define SpIt_value(it) ({ \
+  __CPROVER_assert(0 <= (it)->m_id && (it)->m_id < (it)->m->nnz, "InnerIterator::value(): read inside the value array"); \
+  (it)->m->last_value_pos = (it)->m_id; (it)->m->last_value_outer = (it)->m_outer; \
+  &(it)->m->values[(it)->m_id]; })
 #define SpItR_ctor2 SpIt_ctor2
 #define SpItC_ctor2 SpIt_ctor2
 #define SpItR_conv_bool SpIt_conv_bool
